@@ -2010,6 +2010,131 @@ class Endpoints:
         return f, read_fileobj
 
 
+# ---------------------------------------------------------------------------
+# family: reredirect - a stream redirected a second time
+# ---------------------------------------------------------------------------
+
+class GatedAsyncFile(AsyncMemFile):
+    """An async file whose writes wait for the harness (a slow disk, a
+    network file): the redirection's queue fills up and feeding pauses"""
+
+    def __init__(self, gate: asyncio.Event):
+        super().__init__()
+        self.gate = gate
+
+    async def write(self, data: bytes) -> int:
+        await self.gate.wait()
+        return await super().write(data)
+
+
+def run_reredirect(case) -> CaseResult:
+    """stdout goes to a first target which takes its time; the application
+    redirects it again (documented: redirect() may be called on a running
+    process).  What the command wrote ends up in the two targets, the first
+    part in the first, the rest in the second, nothing lost, nothing twice -
+    and wait() returns"""
+
+    labels = {'pieces:%d' % case['pieces'], 'second:' + case['second']}
+    pieces = [bytes([65 + i % 26]) * case['size']
+              for i in range(case['pieces'])]
+    chunker = chunker_of(case)
+
+    async def body(stdin, stdout, stderr, chan):
+        for piece in pieces:
+            stdout.write(piece)
+            await stdout.drain()
+            await asyncio.sleep(0)
+
+        chan.exit(0)
+
+    pair = make_pair(case, body, 'process', encoding=None)
+    h = pair.h
+    tmp = tempfile.mkdtemp(prefix='c19r-')
+    ends = Endpoints(h, None, tmp)
+
+    try:
+        pair.handshake(chunker)
+        gate = asyncio.Event()
+        first = GatedAsyncFile(gate)
+
+        async def start():
+            return await pair.c.create_process('A', encoding=None,
+                                               stdout=first)
+
+        proc = run_io(h, start(), chunker, 'create_process')
+        h.pump(chunker)
+        # pylint: disable=protected-access
+        if getattr(proc, '_paused_write_streams', None):
+            labels.add('feeding-paused')      # label only
+
+        second, reader = ends.target(case['second'], True)
+
+        async def again():
+            await proc.redirect(stdout=second)
+
+        run_io(h, again(), chunker, 'redirect')
+
+        if case['release'] == 'after':
+            h.pump(chunker)
+
+        h.call(gate.set)
+        h.pump(chunker)
+
+        try:
+            res = run_io(h, proc.wait(), chunker, 'wait')
+        except Violation:
+            raise Violation('hang', 'wait() never returns after stdout was '
+                            'redirected a second time (first target had '
+                            '%d bytes, %d pieces of %d were written)' %
+                            (len(first.data), case['pieces'], case['size']),
+                            'reredirect:wait-hangs') from None
+
+        h.pump(chunker)
+        h.settle()
+
+        if res.exit_status != 0:
+            raise Violation('exit-info', 'exit status %r' %
+                            (res.exit_status,), 'reredirect:exit')
+
+        data2, _ = reader()
+        want = b''.join(pieces)
+        got = bytes(first.data) + data2
+
+        if got != want:
+            raise Violation(
+                'target', 'stdout redirected to a slow target and then to a '
+                '%s: the command wrote %d bytes, the first target has %d, '
+                'the second %d; first difference at %d' %
+                (case['second'], len(want), len(first.data), len(data2),
+                 next((i for i, (a, b) in enumerate(zip(got, want))
+                       if a != b), min(len(got), len(want)))),
+                'reredirect:data')
+
+        if h.loop_errors:
+            raise Violation('loop-error', repr(h.loop_errors[0])[:400],
+                            'loop-error')
+
+        if len(first.data) and data2:
+            labels.add('both-targets-got-data')
+
+        return CaseResult(sorted(labels), 'feeding-paused' in labels)
+    finally:
+        try:
+            ends.close()
+        finally:
+            pair.close()
+            shutil.rmtree(tmp, ignore_errors=True)
+
+
+def reredirect_cases(tier: str):
+    for npieces in (3, 17, 20, 40):
+        for size in (1, 1000, 32768):
+            for second in ('afile', 'path', 'stream'):
+                for release in ('before', 'after'):
+                    yield {'pieces': npieces, 'size': size, 'second': second,
+                           'release': release, 'chunks': []}
+
+
 def is_interleaving(data: str, a: str, b: str) -> bool:
     """data consists of all of a and all of b, each in order"""
 
@@ -3051,6 +3176,10 @@ FAMILIES = [
                                   'big-stdin:writing-paused'] +
                      ['stdout-' + k for k in sorted(set(TGT_KINDS))] +
                      ['stdin-' + k for k in SRC_KINDS]},
+           timeout_is_violation=True, case_timeout=120),
+    Family('reredirect', run_reredirect, enumerate=reredirect_cases,
+           exhaustive=True,
+           required={'all': ['feeding-paused', 'both-targets-got-data']},
            timeout_is_violation=True, case_timeout=120),
     Family('drain', run_drain, strategy=drain_strategy,
            budget={'quick': 120, 'thorough': 2500},
